@@ -335,6 +335,11 @@ class BaseDOELibrary(BaseDriverLibrary, Serializable):
         Returns:
             The output value and the Jacobian value.
         """
+        if self._normalize_ds:
+            # The functions expect a normalized input value
+            # while the samples are expressed in the design space.
+            input_value = self._problem.design_space.normalize_vect(input_value)
+
         return self._problem.evaluate_functions(
             design_vector=input_value,
             preprocess_design_vector=False,
